@@ -1,6 +1,6 @@
 """Workload profiles: one per claimed property. A profile names the history
 generator, the oracles to evaluate, and how coverage is reported."""
-from . import gen_hist
+from . import gen_hist, gen_c13
 
 
 def _fault_table(counters):
@@ -58,7 +58,43 @@ def c08_warnings(res, tier):
     return out
 
 
+def c13_coverage(res, n_runs, t_batch, workers):
+    from .batch import sample_of
+    cov = _common_coverage(res, n_runs, t_batch, workers)
+    cov['distinct_nontrivial'] = len(res.distinct_keys)
+    cov['rule'] = ('one evaluation = one seeded history of 1-6 expand calls (markup in html/xml/xsl/jsx/vue/svelte/pug/slim/haml '
+                   'and stylesheet syntaxes; newline in {LF, CRLF, CR}, seeded indent/baseIndent, comments, format options) '
+                   'on configs whose output.field/output.text are played by the simulated editor peer (8 answer styles incl. '
+                   'length-changing and empty answers), with peer failures (F3), callee failures (F5) and malformed input (F1) '
+                   'between the observed calls. Every successful call is checked: placement, line, column of every callback '
+                   'invocation against the final string, and tabstop numbering (1..n in document order; n from the generator\'s '
+                   'explicit tree for the HTML formatter; relative numbering and no collisions for explicit fields). A call is '
+                   'non-trivial iff the peer was invoked >= 3 times, at least one answer differs in length from what it was given, '
+                   'and the result has >= 2 lines or >= 2 tabstops; distinct by (abbreviation skeleton, syntax, newline, indent, '
+                   'baseIndent, format, peer style).')
+    cov['samples'] = [sample_of(o) for o in res.samples[:2]]
+    return cov
+
+
+def c13_warnings(res, tier):
+    out = []
+    for k in ['c13:calls-scored-for-line/column', 'c13:calls-numbering-counted', 'c13:calls-numbering-explicit',
+              'c13:calls-nontrivial', 'fault-fired:F3', 'fault-fired:F5']:
+        if not res.counters.get(k):
+            out.append('reach probe stuck at zero: %s' % k)
+    return out
+
+
 PROFILES = {
+    'C13': {
+        'gen': gen_c13.gen_c13,
+        'props': ['C13'],
+        'coverage': c13_coverage,
+        'warnings': c13_warnings,
+        'level': 'exploration',
+        'quick_runs': 8000,
+        'thorough_runs': 200000,
+    },
     'C08': {
         'gen': gen_hist.gen_c08,
         'props': ['C08'],
